@@ -217,9 +217,6 @@ class Engine:
         results = self.exec_block(st, self.fn.body)
         for st2, out in results:
             self.finish_path(st2, out)
-        missing = set(self.c.get('ghost_after', {})) - self.ghost_hits
-        if missing and not self.unsupported:
-            raise SpecError(f'{self.qualname}: ghost_after anchors not found in the source (spec drift): {sorted(missing)}')
         return self.obligations
 
     def finish_path(self, st, out):
@@ -665,7 +662,7 @@ class Engine:
     # ---- assignment --------------------------------------------------------------------
     def assign(self, st, tgt, val, src_node):
         if isinstance(tgt, ast.Name):
-            if src_node is not None and isinstance(src_node, (ast.Name, ast.Attribute)) and isinstance(val, (VList, VRec)):
+            if src_node is not None and not st.spec and isinstance(src_node, (ast.Name, ast.Attribute)) and isinstance(val, (VList, VRec)):
                 st.aliased.add(tgt.id)
                 r = src_node
                 while isinstance(r, ast.Attribute):
@@ -865,6 +862,19 @@ class Engine:
         if isinstance(node.op, ast.UAdd):
             return v
         raise Unsupported('unary op')
+
+    def narrow(self, v, sort, st, node, what=''):
+        """view `v` at `sort`, turning an Optional into its payload under the obligation that it is not None here"""
+        try:
+            return coerce(v, sort)
+        except Unsupported:
+            pass
+        if isinstance(v, VOpt) and not (isinstance(sort, tuple) and sort[0] == 'opt'):
+            self.oblige(st, z3.Not(v.isnone), f'no-None-passed-as-{what or "argument"}@L{getattr(node, "lineno", 0)}', 'safety', node)
+            return self.narrow(v.val, sort, st, node, what)
+        if isinstance(v, VTuple) and isinstance(sort, tuple) and sort[0] == 'tuple' and len(v.items) == len(sort[1]):
+            return VTuple([self.narrow(i, s_, st, node, what) for i, s_ in zip(v.items, sort[1])])
+        return coerce(v, sort)
 
     def need_int(self, v, st, node):
         if isinstance(v, VInt):
